@@ -769,7 +769,8 @@ NEUTRAL = [
 # behaviour-preserving refactorings written by sub-agents (probe digests
 # byte-identical before/after): /verif/neutral/<region>-<k>/patch.diff.
 # Every property's check must stay silent on each of them.
-NEUTRAL_PATCHES = [f"N{i}-{k}" for i in range(1, 35) for k in range(1, 6)]
+NEUTRAL_PATCHES = [f"N{i}-{k}" for i in range(1, 35) for k in range(1, 6)] \
+    + ["N35-1"]
 
 
 def _apply(root, rel, old, new):
